@@ -192,6 +192,14 @@ func (f *remoteWrapper) Config() proxyv1alpha1.RateLimitItemConfiguration {
 }
 
 func (f *remoteWrapper) Sync(limitItem proxyv1alpha1.RateLimitItemConfiguration) {
+	// whatever the limiter server answered, the configured global limit of the
+	// schema bounds what this instance may admit
+	limitItem, ok := f.clampToGlobalLimit(limitItem)
+	if !ok {
+		klog.Errorf("[remote limiter] cluster=%q name=%q ignore limit which does not fit the schema: %+v", f.flowControlCache.cluster, limitItem.Name, limitItem.LimitItemDetail)
+		return
+	}
+
 	if reflect.DeepEqual(limitItem, f.remoteConfig) {
 		return
 	}
@@ -233,6 +241,41 @@ func (f *remoteWrapper) Sync(limitItem proxyv1alpha1.RateLimitItemConfiguration)
 	default:
 		f.GlobalCounterFlowControl = f.newFlowControl(limitItem, newType)
 	}
+}
+
+// clampToGlobalLimit bounds a limit answered by the limiter server by the
+// global limit configured for the schema: at least 1 (the smallest quota the
+// server ever allocates) and at most the global limit, for the burst of a
+// token bucket as well. It returns false if the limit is of another type than
+// the schema's global limit.
+func (f *remoteWrapper) clampToGlobalLimit(limitItem proxyv1alpha1.RateLimitItemConfiguration) (proxyv1alpha1.RateLimitItemConfiguration, bool) {
+	clamp := func(v, max int32) int32 {
+		if v > max {
+			return max
+		}
+		if v < 1 && max >= 1 {
+			return 1
+		}
+		if v < 0 {
+			return 0
+		}
+		return v
+	}
+	localConfig := f.flowControlCache.local.Config()
+	switch {
+	case limitItem.MaxRequestsInflight != nil && limitItem.TokenBucket == nil && localConfig.GlobalMaxRequestsInflight != nil:
+		limitItem.MaxRequestsInflight = &proxyv1alpha1.MaxRequestsInflightFlowControlSchema{
+			Max: clamp(limitItem.MaxRequestsInflight.Max, localConfig.GlobalMaxRequestsInflight.Max),
+		}
+	case limitItem.TokenBucket != nil && limitItem.MaxRequestsInflight == nil && localConfig.GlobalTokenBucket != nil:
+		limitItem.TokenBucket = &proxyv1alpha1.TokenBucketFlowControlSchema{
+			QPS:   clamp(limitItem.TokenBucket.QPS, localConfig.GlobalTokenBucket.QPS),
+			Burst: clamp(limitItem.TokenBucket.Burst, localConfig.GlobalTokenBucket.Burst),
+		}
+	default:
+		return limitItem, false
+	}
+	return limitItem, true
 }
 
 func (f *remoteWrapper) newFlowControl(limitItem proxyv1alpha1.RateLimitItemConfiguration, newType proxyv1alpha1.FlowControlSchemaType) GlobalCounterFlowControl {
